@@ -64,7 +64,15 @@ def shift(rects, op, n_rows, n_cols):
     kind, at = op
     out = []
     for (r0, c0, r1, c1) in rects:
-        if kind == "add_row":
+        if kind == "del_tail_rows":      # the last `at` rows are removed: a rectangle lying entirely inside them goes with its cells
+            if r0 >= n_rows - at:
+                continue
+            out.append((r0, c0, r1, c1))
+        elif kind == "del_tail_cols":
+            if c0 >= n_cols - at:
+                continue
+            out.append((r0, c0, r1, c1))
+        elif kind == "add_row":
             d = 1 if at <= r0 else 0
             out.append((r0 + d, c0, r1 + d, c1))
         elif kind == "del_row":
@@ -77,6 +85,16 @@ def shift(rects, op, n_rows, n_cols):
             d = -1 if at < c0 else 0
             out.append((r0, c0 + d, r1, c1 + d))
     return out
+
+
+def describe(op):
+    """edits that move a rectangle (the open finding F-C12-2 is about those) are worded ' then [op]'; removing the table's last rows / columns
+    together with a rectangle they hold entirely is a different history"""
+    if op[0] == "del_tail_rows":
+        return f", followed by removal of the last {op[1]} row(s) holding a whole rectangle"
+    if op[0] == "del_tail_cols":
+        return f", followed by removal of the last {op[1]} column(s) holding a whole rectangle"
+    return f" then {op}"
 
 
 def parse_rng(text):
@@ -92,6 +110,18 @@ def run_fixture(case):
     import warnings
     from numbers_parser import Document
     from bounded import docsnap
+    if case["fixture"] == "built:merged":
+        # a document the library wrote itself (merge map, no dependency records), loaded again
+        with tempfile.TemporaryDirectory() as td0:
+            d0 = Document(num_rows=5, num_cols=5)
+            t0 = d0.sheets[0].tables[0]
+            for r in range(5):
+                for c in range(5):
+                    t0.write(r, c, f"v{r}.{c}")
+            t0.merge_cells("B2:C3")
+            p0 = os.path.join(td0, "own.numbers")
+            d0.save(p0)
+            return run_fixture(dict(case, fixture=p0))
     doc, why = docsnap.open_quiet(case["fixture"])
     if doc is None or why == "unsupported-version":
         return None  # a document the library itself declares unsupported (its version warning): outside the property
@@ -107,6 +137,18 @@ def run_fixture(case):
             return None
         new = free[case["pick"] % len(free)]
         what = f"{os.path.basename(case['fixture'])} [{t.name}] (already merged: {[rng(x) for x in old]}) after merging {rng(new)}"
+        extra = vals = None
+        if case.get("add_table"):
+            # a table added to the same sheet is a table of its own: none of the loaded table's rectangles, every written value kept
+            extra = doc.sheets[case["sheet"]].add_table("Added by the check", num_rows=t.num_rows + 1, num_cols=t.num_cols + 1)
+            vals = {}
+            for r in range(extra.num_rows):
+                for c in range(extra.num_cols):
+                    extra.write(r, c, f"n{r}.{c}")
+                    vals[(r, c)] = f"n{r}.{c}"
+            err = picture(extra, [], vals, f"open document: table added next to {os.path.basename(case['fixture'])} [{t.name}] (merged: {[rng(x) for x in old]})")
+            if err:
+                return {"detail": err, "class": "added-table"}
         t.merge_cells(rng(new))
         err = picture(t, old + [new], {}, f"open document {what}")
         if err:
@@ -114,10 +156,15 @@ def run_fixture(case):
         with tempfile.TemporaryDirectory() as td:
             p = os.path.join(td, "f.numbers")
             doc.save(p)
-            t2 = Document(p).sheets[case["sheet"]].tables[case["table"]]
+            d2 = Document(p)
+            t2 = d2.sheets[case["sheet"]].tables[case["table"]]
             err = picture(t2, old + [new], {}, f"reopened {what}")
             if err:
                 return {"detail": err, "class": "loaded-document"}
+            if extra is not None:
+                err = picture(d2.sheets[case["sheet"]].tables[-1], [], vals, f"reopened: table added next to {os.path.basename(case['fixture'])} [{t.name}] (merged: {[rng(x) for x in old]})")
+                if err:
+                    return {"detail": err, "class": "added-table"}
     return None
 
 
@@ -157,9 +204,9 @@ def run_case(case):
     if op:
         kind, at = op
         {"add_row": lambda: t.add_row(1, at), "del_row": lambda: t.delete_row(1, at), "add_col": lambda: t.add_column(1, at),
-         "del_col": lambda: t.delete_column(1, at)}[kind]()
+         "del_col": lambda: t.delete_column(1, at), "del_tail_rows": lambda: t.delete_row(at), "del_tail_cols": lambda: t.delete_column(at)}[kind]()
         rects = shift(rects, op, n, n)
-        err = picture(t, rects, {}, f"open document after merging {[rng(tuple(x)) for x in case['rects']]} then {op}")
+        err = picture(t, rects, {}, f"open document after merging {[rng(tuple(x)) for x in case['rects']]}{describe(op)}")
         if err:
             return {"detail": err}
     if case.get("second"):
@@ -191,7 +238,7 @@ def run_case(case):
             p = os.path.join(td, "m.numbers")
             doc.save(p)
             t2 = Document(p).sheets[0].tables[0]
-            err = picture(t2, rects, {} if op else outside, f"reopened after merging {[rng(tuple(x)) for x in case['rects']]}" + (f" then {op}" if op else ""))
+            err = picture(t2, rects, {} if op else outside, f"reopened after merging {[rng(tuple(x)) for x in case['rects']]}" + (describe(op) if op else ""))
             if err:
                 return {"detail": err}
     return None
@@ -245,6 +292,14 @@ def main():
             edits.append({"size": n, "rects": [list(x)], "then": list(op)})
     rnd.shuffle(edits)
     cases += edits[: a.edits]
+    # the trailing rows / columns that hold a whole rectangle (and nothing of another one) are deleted: it disappears with its cells
+    for x, y in pairs[:12]:
+        lo, hi = (x, y) if x[0] <= y[0] else (y, x)
+        if hi[0] > lo[2]:
+            cases.append({"size": n, "rects": [list(lo), list(hi)], "then": ["del_tail_rows", n - hi[0]]})
+        lo, hi = (x, y) if x[1] <= y[1] else (y, x)
+        if hi[1] > lo[3]:
+            cases.append({"size": n, "rects": [list(lo), list(hi)], "then": ["del_tail_cols", n - hi[1]]})
     # documents authored in Numbers that already hold merged rectangles (merge owner records + region map)
     import numbers_parser
     data = os.path.join(os.path.dirname(os.path.dirname(os.path.dirname(numbers_parser.__file__))), "tests", "data")
@@ -253,7 +308,9 @@ def main():
         f = os.path.join(data, name)
         if os.path.exists(f):
             for pick in (0, 3, 11):
-                cases.append({"fixture": f, "sheet": sheet, "table": table, "pick": pick})
+                cases.append({"fixture": f, "sheet": sheet, "table": table, "pick": pick, "add_table": pick == 3})
+    for pick in (0, 3):
+        cases.append({"fixture": "built:merged", "sheet": 0, "table": 0, "pick": pick, "add_table": True})
     return common.run(cases, run_case)
 
 
